@@ -124,6 +124,35 @@ fn main() {
         println!("{} => {}", f, r.unwrap_or("PANIC".to_string()));
       }
     }
+    Some("numops") => {
+      // numops <file>: each line `op a [b]` (decimal strings, scientific notation allowed) is evaluated with the real
+      // FeelNumber API; prints `op a b => result` with the result in scientific notation (Debug), or null for None.
+      let text = std::fs::read_to_string(&args[2]).unwrap_or_default();
+      let mut out = String::new();
+      for line in text.lines() {
+        let t: Vec<&str> = line.split_whitespace().collect();
+        if t.len() < 2 { continue; }
+        let (op, a_s) = (t[0].to_string(), t[1].to_string());
+        let b_s = t.get(2).map(|s| s.to_string()).unwrap_or("0".to_string());
+        let r = std::panic::catch_unwind(move || {
+          let a = FeelNumber::from_string(&a_s);
+          let b = FeelNumber::from_string(&b_s);
+          let opt = |o: Option<FeelNumber>| o.map(|n| format!("{:?}", n)).unwrap_or("null".to_string());
+          match op.as_str() {
+            "add" => format!("{:?}", a + b), "sub" => format!("{:?}", a - b), "mul" => format!("{:?}", a * b), "div" => format!("{:?}", a / b),
+            "rem" => format!("{:?}", a % b), "neg" => format!("{:?}", -a), "abs" => format!("{:?}", a.abs()),
+            "floor" => format!("{:?}", a.floor()), "ceiling" => format!("{:?}", a.ceiling()), "round" => format!("{:?}", a.round(&b)),
+            "sqrt" => opt(a.sqrt()), "exp" => format!("{:?}", a.exp()), "ln" => opt(a.ln()), "pow" => opt(a.pow(&b)),
+            "odd" => format!("{}", a.odd()), "even" => format!("{}", a.even()), "integer" => format!("{}", a.is_integer()),
+            "usize" => a.to_usize().map(|v| v.to_string()).unwrap_or("null".to_string()), "isize" => a.to_isize().map(|v| v.to_string()).unwrap_or("null".to_string()),
+            "eq" => format!("{}", a == b), "lt" => format!("{}", a < b), "le" => format!("{}", a <= b), "gt" => format!("{}", a > b), "ge" => format!("{}", a >= b),
+            _ => "?".to_string(),
+          }
+        }).unwrap_or("PANIC".to_string());
+        out.push_str(&format!("{} => {}\n", line.trim(), r));
+      }
+      print!("{}", out);
+    }
     Some("scopes") => {
       // BOUNDED stand-in (not a proof): every stack of up to <max> contexts in which each context either binds `x` (to its
       // level) and/or `y z` or not: Scope::get_entry and Scope::search_deep must return the innermost binding, and
